@@ -4,7 +4,7 @@ import "golang.org/x/tools/go/ssa"
 
 func init() {
 	register("C05",
-		"Decides C05's structural content as tables and contracts extracted from the source: for every codec builder, every accepting path pairs the Go kinds it admits with a codec whose Read/Write/Omit view the destination as exactly that kind (BT-WIDTH, with element, key and fixed-length side conditions BT-FIXED), wrapper codecs wrap a codec built for the same type (BT-SUB), record offsets and field types come from the same struct field (BT-REC), array/map codecs use one element type for codec, stride and allocation (BT-ARR, BT-MAP), every &x handed to another codec's method and every local reinterpretation is layout-compatible (PC-ARG, PC-CAST), registered builders return codecs for exactly the registered type (PC-REG). "+
+		"Decides C05's structural content as tables and contracts extracted from the source: for every codec builder, every accepting path pairs the Go kinds it admits with a codec whose Read/Write/Omit view the destination as exactly that kind (BT-WIDTH, with element, key and fixed-length side conditions BT-FIXED), wrapper codecs wrap a codec built for the same type (BT-SUB), record offsets and field types come from the same struct field (BT-REC), array/map codecs use one element type for codec, stride and allocation (BT-ARR, BT-MAP), every &x handed to another codec's method and every local reinterpretation is layout-compatible (PC-ARG, PC-CAST), registered builders return codecs for exactly the registered type (PC-REG); what a codec's New allocates for a pointer target or map value has the size and pointer layout of what its Read stores (PC-NEW). "+
 			"Not decided: values; arithmetic overflow of offsets; behaviour of user-registered codecs.",
 		func(c *Ctx) {
 			ruleBTWidth(c, true)
@@ -16,6 +16,7 @@ func init() {
 			rulePCReg(c)
 			ruleArrBound(c)
 			ruleDstFresh(c)
+			rulePCNew(c)
 			c.Assume = append(c.Assume, "reflect.Int is 64 bits wide (linux/amd64); on a 32-bit target the Int -> Int64Codec row would be a finding")
 		})
 }
@@ -52,7 +53,7 @@ func isTimePkgFunc(P *Program) func(fn *ssa.Function) bool {
 
 func init() {
 	register("C19",
-		"Decides necessary conditions of C19 in the time codecs: the builder's logical-type table gives the specification's nanoseconds per unit (TS-MULT); the reader computes time.Unix(0, l*mult) (TS-READ); on every path of the writer the unit the time is converted to equals every multiplier the builder can have assigned on that path (TS-UNIT) and the multiplier is consulted by both sides (E-FU); every &x handed to the embedded int codecs is a variable of exactly the codec's width (PC-ARG), so a negative day count is sign-correct.  The time codecs omit only the zero time, never an instant whose stored integer happens to be 0 (OM-ZERO).  What a time codec allocates for a pointer or map value is a time.Time, what its Read fills in (PC-NEW).  No product is formed in a 32-bit type and widened afterwards (TS-WIDE). "+
+		"Decides necessary conditions of C19 in the time codecs: the builder's logical-type table gives the specification's nanoseconds per unit (TS-MULT); the reader computes time.Unix(0, l*mult) (TS-READ); on every path of the writer the unit the time is converted to equals every multiplier the builder can have assigned on that path (TS-UNIT) and the multiplier is consulted by both sides (E-FU); every &x handed to the embedded int codecs is a variable of exactly the codec's width (PC-ARG), so a negative day count is sign-correct.  The time codecs omit only the zero time, never an instant whose stored integer happens to be 0 (OM-ZERO).  What a time codec allocates for a pointer or map value is a time.Time, what its Read fills in (PC-NEW).  No product is formed in a 32-bit type and widened afterwards (TS-WIDE), and no 64-bit count of seconds is narrowed before the division that brings it into range (TS-NARROW). "+
 			"Not decided: the day/instant arithmetic itself (floor versus truncation before 1970, overflow of l*mult).",
 		func(c *Ctx) {
 			ruleTSMult(c)
@@ -64,10 +65,11 @@ func init() {
 			ruleOMZero(c)
 			rulePCNew(c)
 			ruleTSWide(c)
+			ruleTSNarrow(c)
 		})
 
 	register("C20",
-		"Decides the structural clauses of C20: in the dispatcher every built-in per-type builder is reached only on the not-found edge of registry[typ] (pointer kinds first recurse on the element type; union/null schemas resolve structurally and build their branches through the dispatcher again), the registered builder is called with the dispatcher's own arguments (BT-REG); every sub-codec in every builder is built through the dispatcher (who-may-call); schema generation returns the registered schema before its kind switch and recurses only through schemaForType (SG-REG); Register/RegisterSchema unconditionally overwrite (REG-OVERWRITE); each of the library's six registrations pairs a builder with a schema whose branch type the builder accepts (REG-PAIR), returns codecs for exactly the registered type (PC-REG) and every codec's New matches its Read so registered types work as map values and pointer targets (PC-NEW). "+
+		"Decides the structural clauses of C20: in the dispatcher every built-in per-type builder is reached only on the not-found edge of registry[typ] (pointer kinds first recurse on the element type; union/null schemas resolve structurally and build their branches through the dispatcher again), the registered builder is called with the dispatcher's own arguments (BT-REG); every sub-codec in every builder is built through the dispatcher (who-may-call); schema generation returns the registered schema before its kind switch and recurses only through schemaForType (SG-REG); Register/RegisterSchema unconditionally overwrite (REG-OVERWRITE); each of the library's six registrations pairs a builder with a schema whose branch type the builder accepts (REG-PAIR), returns codecs for exactly the registered type (PC-REG) and every codec's New matches its Read so registered types work as map values and pointer targets (PC-NEW); the registered null.* codecs omit exactly the invalid wrappers (OM-VALID) and, like every codec, hand out no view of the block buffer (AL-BUF). "+
 			"Not decided: round trip of values through a custom codec.",
 		func(c *Ctx) {
 			ruleBTReg(c)
@@ -79,5 +81,7 @@ func init() {
 			rulePCReg(c)
 			rulePCNew(c)
 			ruleSGNull(c)
+			ruleOMValid(c)
+			ruleALBuf(c)
 		})
 }
